@@ -10,3 +10,11 @@
 nar_dev_utils::pub_mod_and_pub_use! {
     common_narsese_templates
 }
+
+/// 判断「字符切片」是否以**整个**指定字串开头
+/// * ⚠️不同于`nar_dev_utils`的`StartsWithStr::starts_with_str`：
+///   后者在「切片只是字串的真前缀」（如切片在多字符关键字中途结束）时也返回`true`
+pub(crate) fn char_slice_starts_with_str(slice: &[char], needle: &str) -> bool {
+    let mut chars = slice.iter();
+    needle.chars().all(|c| chars.next() == Some(&c))
+}
